@@ -86,8 +86,8 @@ Definition cfg_of_table (B : built) (base : lexcfg) : lexcfg := {|
    carry their fixed token types (as _build_operator_table names them) *)
 Definition row_ok (r : brow) : bool :=
   negb (Nat.eqb (length (b_sym r)) O) &&
-  (if str_eqb (b_sym r) sym_index then str_eqb (b_name r) K_INDEXER
-   else if str_eqb (b_sym r) sym_map then str_eqb (b_name r) K_MAP else true).
+  (if str_eqb (b_sym r) sym_index then str_eqb K_INDEXER (b_name r)
+   else if str_eqb (b_sym r) sym_map then str_eqb K_MAP (b_name r) else true).
 Definition table_okb (B : built) : bool :=
   forallb row_ok (rows B) &&
   match nvop B with Some s => negb (Nat.eqb (length s) O) | None => true end.
